@@ -47,7 +47,7 @@ FALSY_LINES = ["n=0 s= typed", "n=0 s=x typed", "n=7 s= typed", "k= v=0",
 
 
 def gen_lines(seed, vol, with_seq, falsy=False, distinct=False,
-              badutf8=False):
+              badutf8=False, open_tail=False, orphan_head=False):
     """ deterministic file content with exactly `vol` results.  Line kinds:
     'N W match' (simple A), 'N W beta match' (simple A and B), filler, if
     with_seq sections 'N begin' / 'N body W' / 'N end', and if falsy lines
@@ -98,6 +98,13 @@ def gen_lines(seed, vol, with_seq, falsy=False, distinct=False,
             out.append("filler line without any result")
     if vol == 0:
         out = ["nothing to see here", "really nothing"]
+    # lines that yield NO result when the file is searched on its own: body
+    # and end lines before the first start (a rotated log), a last section
+    # that is never closed (a live log)
+    if orphan_head:
+        out = ["5 body alpha", "6 body delta", "5 end"] + out
+    if open_tail:
+        out = out + ["8 begin", "3 body gamma", "4 body eps"]
     return out
 
 
@@ -111,7 +118,9 @@ def write_files(d, recipe):
                 lines = gen_lines(f['seed'], f['vol'], f['seq'],
                                   f.get('falsy', False),
                                   f.get('distinct', False),
-                                  f.get('badutf8', False))
+                                  f.get('badutf8', False),
+                                  f.get('open_tail', False),
+                                  f.get('orphan_head', False))
                 fh.write("\n".join(lines) + "\n")
         paths.append(p)
     return paths
@@ -206,9 +215,22 @@ def child_main(recipe_path, out_path):
         par = None
         try:
             s = FileSearcher(max_parallel_tasks=recipe['m'], **kw)
-            for sd in make_defs():
-                for p in paths:
-                    s.add(sd, p)
+            defs = make_defs()
+            if recipe.get('history'):
+                # the same searcher and definition objects were first used
+                # for an in-process search of the first file alone; then the
+                # other files are added and run() is called again
+                for sd in defs:
+                    s.add(sd, paths[0])
+                first = s.run()
+                out['history_first_run_results'] = len(first)
+                for sd in defs:
+                    for p in paths[1:]:
+                        s.add(sd, p)
+            else:
+                for sd in defs:
+                    for p in paths:
+                        s.add(sd, p)
             res = s.run()
             out['par_total'] = len(res)
             out['par_stats_results'] = s.stats['results']
@@ -362,6 +384,28 @@ def recipes(chk):
                     if f['vol'] != 'E' and f['vol'] >= 1]
             for n_, f in enumerate(elig):
                 f['falsy'] = (n_ == 0 or rng.random() < 0.7)
+    # searcher history: in-process run of the first file (which ends inside
+    # an open section), then the remaining files (which begin with body/end
+    # lines) are added and the searcher runs again, now with workers
+    def hist(m, vols):
+        fs = files(vols, 1)
+        fs[0]['seq'] = True
+        fs[0]['open_tail'] = True
+        for f in fs[1:]:
+            if f['vol'] != 'E':
+                f['orphan_head'] = True
+        return {'m': m, 'history': True, 'files': fs}
+    out.append(hist(2, [11, 9, 10, 'E']))
+    out.append(hist(8, [1000] + rnd(5, small + [1000])))
+    if not chk.quick:
+        for m in (0, 3, 16):
+            out.append(hist(m, [rng.choice([9, 11, 1000])]
+                            + rnd(rng.randrange(1, 12), small + [1000])))
+    # strict decoding (the default) and a file with invalid UTF-8: the
+    # multi-file run must fail like the search of that file alone does
+    bad = files([10, 9, 11], 0)
+    bad[1]['badutf8'] = True
+    out.append({'m': 3, 'files': bad})
     return out
 
 
@@ -396,7 +440,10 @@ def observable(chk):
         vols = [f['vol'] for f in r['files']]
         shape = (f"files={len(vols)} m={r['m']} "
                  f"max_vol={max([v for v in vols if v != 'E'] or [0])}"
-                 + (f" decode={r['decode']}" if r.get('decode') else ''))
+                 + (f" decode={r['decode']}" if r.get('decode') else '')
+                 + (" history" if r.get('history') else ''))
+        if r.get('history'):
+            chk.dist('obs_runs_with_searcher_history')
         chk.coverage['evaluations'] += 1
         chk.coverage['traces_validated_against_impl'] += 1
         chk.dist(f"obs_m={r['m']}")
@@ -429,6 +476,7 @@ def observable(chk):
                     if e['seq_error']['class'] == pe['class']]
             if same:
                 chk.dist('obs_runs_where_both_sides_raise')
+                nontrivial += 1
             else:
                 chk.violation(
                     f"parallel-only-exception {pe['class']} {shape}",
@@ -446,12 +494,20 @@ def observable(chk):
                     witness=True)
             continue
         if seq_errs:
+            # the multi-file run returned normally although one of its files
+            # cannot be searched: what it returned for that path (and the
+            # silence about it) is not what searching the file alone gives
+            e0 = seq_errs[0]
             chk.violation(
-                f"sequential-only-exception "
-                f"{seq_errs[0]['seq_error']['class']} {shape}",
-                {'recipe': r, 'path_index': seq_errs[0]['i'],
-                 'sequential_exception': seq_errs[0]['seq_error']},
-                witness=False)
+                f"parallel-returns-although-file-fails-alone "
+                f"{e0['seq_error']['class']} {shape}",
+                {'recipe': r, 'path_index': e0['i'],
+                 'sequential_exception': e0['seq_error'],
+                 'parallel_results_for_that_path': e0['n_par'],
+                 'parallel_total': res.get('par_total'),
+                 'note': 'run() over all files returned without raising; '
+                         'the same file searched alone raises'},
+                witness=True)
             continue
         if any(e['n_seq'] > 10000 for e in res['paths']):
             chk.dist('obs_file_crossing_NUM_BUFFERED_RESULTS')
